@@ -2,4 +2,5 @@ import GeoVerif.Ops.Schedules
 import GeoVerif.Ops.Lcoe
 import GeoVerif.Ops.CashFlow
 import GeoVerif.Ops.Capex
+import GeoVerif.Ops.Plant
 /-! Everything the driver needs (import-free models + ops). -/
